@@ -187,6 +187,64 @@ theorem order_independent {rc : O → O} {vUp vDown : O} {mods mods' : List (GMo
         | none => exact ⟨rest', rfl, hr⟩
         | some o => rfl
 
+/-- every start overhang of the supplied modules is a key of the map that is built (under the accumulator's keys) -/
+theorem gBuild_keeps_starts : ∀ (ms acc out : List (GMod O)), gBuild ms acc = .ok out →
+    (∀ m ∈ acc, ∃ m' ∈ out, m'.start = m.start) ∧ (∀ m ∈ ms, ∃ m' ∈ out, m'.start = m.start) := by
+  intro ms
+  induction ms with
+  | nil =>
+    intro acc out h
+    simp only [gBuild, Except.ok.injEq] at h; subst h
+    exact ⟨fun m hm => ⟨m, hm, rfl⟩, fun m hm => by cases hm⟩
+  | cons x xs ih =>
+    intro acc out h
+    simp only [gBuild] at h
+    cases hl : gLookup acc x.start with
+    | some y =>
+      rw [hl] at h; simp only [] at h
+      split at h
+      · obtain ⟨h1, h2⟩ := ih acc out h
+        refine ⟨h1, ?_⟩
+        intro m hm
+        rcases List.mem_cons.mp hm with rfl | hm
+        · obtain ⟨hy, hys⟩ := gLookup_some hl
+          obtain ⟨m', hm', hs⟩ := h1 y hy
+          exact ⟨m', hm', by rw [hs, hys]⟩
+        · exact h2 m hm
+      · cases h
+    | none =>
+      rw [hl] at h; simp only [] at h
+      obtain ⟨h1, h2⟩ := ih (acc ++ [x]) out h
+      refine ⟨fun m hm => h1 m (List.mem_append_left _ hm), ?_⟩
+      intro m hm
+      rcases List.mem_cons.mp hm with rfl | hm
+      · exact h1 m (List.mem_append_right _ (List.mem_singleton.mpr rfl))
+      · exact h2 m hm
+
+/-- **a palindromic start overhang is always refused** — alone or in company: a module whose start overhang is
+its own reverse complement never takes part in a product (it would ligate to itself) -/
+theorem palindromic_start_refused {rc : O → O} {vUp vDown : O} {mods : List (GMod O)} {m : GMod O}
+    (hm : m ∈ mods) (hp : rc m.start = m.start) : ∀ r, gAssemble rc vUp vDown mods ≠ .ok r := by
+  intro r h
+  unfold gAssemble at h
+  split at h
+  · cases h
+  · cases hb : gBuild mods [] with
+    | error e => rw [hb] at h; cases h
+    | ok map =>
+      rw [hb] at h; simp only [] at h
+      obtain ⟨m', hm', hs⟩ := (gBuild_keeps_starts mods [] map hb).2 m hm
+      have hclash : gRcClash rc map = true := by
+        unfold gRcClash
+        rw [List.any_eq_true]
+        refine ⟨m', hm', ?_⟩
+        rw [hs, hp]
+        cases hl : gLookup map m.start with
+        | some _ => rfl
+        | none => exact absurd hs ((gLookup_none.mp hl) m' hm')
+      rw [hclash] at h
+      simp at h
+
 /-! non-vacuity: a two-module chain over a toy alphabet; a palindromic start overhang is its own reverse
 complement and is rejected; a missing partner stalls where expected -/
 def rcTest : Nat → Nat := fun n => 100 - n
@@ -194,6 +252,8 @@ def rcTest : Nat → Nat := fun n => 100 - n
 example : gAssemble rcTest 1 2 [⟨3, 1, 11⟩, ⟨2, 3, 10⟩, ⟨7, 8, 12⟩]
     = .ok ([⟨2, 3, 10⟩, ⟨3, 1, 11⟩], [⟨7, 8, 12⟩]) := by decide
 example : gAssemble rcTest 1 2 [⟨2, 50, 10⟩, ⟨50, 1, 11⟩] = .error .duplicate := by decide
+/-- a lone module whose palindromic start overhang closes the vector: still refused -/
+example : gAssemble rcTest 1 50 [⟨50, 1, 10⟩] = .error .duplicate := by decide
 example : gAssemble rcTest 1 2 [⟨2, 3, 10⟩] = .error (.missing 3) := by decide
 example : gAssemble rcTest 1 1 [⟨2, 3, 10⟩] = .error .invalidVector := by decide
 /-- a cycle that never reaches the vector: the popped key is missing the second time round -/
